@@ -7,6 +7,7 @@
 -/
 import PydapModel.Proxy
 import Proofs.Proxy
+import Proofs.ProjSrc
 namespace Pydap.C14
 open Pydap Pydap.Proxy
 
@@ -150,5 +151,53 @@ example : gridResult ⟨[], [.var ['g'] (.vals [(false, [0, 1]), (false, [0, 1, 
       .var ['y'] (.vals [(false, [0, 1, 2])]), .grid [0, 1, 2] true], [], []⟩ 3 [Idx.int 1]
     = some [.var ['g'] (.vals [(true, [1]), (false, [0, 1, 2])]), .var ['x'] (.vals [(true, [1])]),
             .var ['y'] (.vals [(false, [0, 1, 2])])] := by decide
+
+/-! ### the tie by translation: the ids and the record range of `seqReq` are what the source writes
+
+`Pydap.Gen.src_seq_id` / `Pydap.Gen.src_seq_projection` are the MiniPy trees of handlers/dap.py `SequenceProxy.id` and
+`SequenceProxy._projection` (see Props/C04.lean for what is opaque).  The request the model logs for a sequence read,
+`seqReq t p`, carries the ids and the hyperslab separately; the source writes them as one text. -/
+
+open MiniPy in
+/-- `SequenceProxy.id` is the comma-joined `ids` of the model's request -/
+theorem C14_source_seq_id (t : Tmpl) (p : SeqProxy) (isSeq : Bool) :
+    runItem (proxyEnv t p isSeq) Gen.src_seq_id "@ret"
+      = .ok (.str (codesOf (SeqClient.joinWith ',' (seqReq t p).ids))) := by
+  unfold proxyEnv
+  rw [src_seq_id_eq, ← proxyId_eq]
+  rfl
+
+open MiniPy in
+/-- a whole-sequence proxy (no selected columns; the template is the sequence): the projection the source writes is the
+    single id of the request followed by the text of its record range `slab` -/
+theorem C14_source_projection_whole (t : Tmpl) (p : SeqProxy) (hs : p.subChildren = false) :
+    (seqReq t p).ids = [joinDot t.path] ∧
+    runItem (proxyEnv t p true) Gen.src_seq_projection "@ret"
+      = .ok (.str (codesOf (joinDot t.path ++ hyperslabText p.slice))) := by
+  refine ⟨by simp [seqReq, seqIds, hs], ?_⟩
+  unfold proxyEnv
+  rw [src_seq_projection_eq, projSpec_model t p true (.inl rfl)]
+  simp [SeqClient.projText, SeqClient.proxyId, seqIds, hs, SeqClient.joinWith]
+
+section SourceExamples
+open MiniPy
+
+/-- equality of MiniPy results is decidable (for the concrete examples below only) -/
+local instance decEqMiniPyResult {α : Type} [DecidableEq α] : DecidableEq (Except MiniPy.Err α)
+  | .ok a, .ok b => if h : a = b then isTrue (by rw [h]) else isFalse (by intro h'; cases h'; exact h rfl)
+  | .error a, .error b => if h : a = b then isTrue (by rw [h]) else isFalse (by intro h'; cases h'; exact h rfl)
+  | .ok _, .error _ => isFalse (by intro h; cases h)
+  | .error _, .ok _ => isFalse (by intro h; cases h)
+
+def srcP : SeqProxy :=
+  { baseurl := [], template := 0, selection := [], slice := [⟨some 1, some 3, none⟩], subChildren := false,
+    session := none, opts := 0 }
+
+example : runItem (proxyEnv ⟨["s".toList], ["f".toList], ["f".toList]⟩ srcP true) Gen.src_seq_id "@ret"
+    = .ok (.str (codesOf "s".toList)) := by decide +kernel
+example : runItem (proxyEnv ⟨["s".toList], ["f".toList], ["f".toList]⟩ srcP true) Gen.src_seq_projection "@ret"
+    = .ok (.str (codesOf "s[1:1:2]".toList)) := by decide +kernel
+
+end SourceExamples
 
 end Pydap.C14
